@@ -650,6 +650,10 @@ void run_crash_case(Choices& c, Report& r)
   bool const per_thread_loggers = !c.flip(2, 3);
   // the signal clause holds whatever wait_for_queues_to_empty_before_exit says (the handler flushes); stop/exit need it on
   bool const signals_without_exit_wait = c.flip(1, 3);
+  // a quarter of the programs: a second thread raises the same signal shortly after the faulted one (delivery=raise only);
+  // the handler is entered twice, the first entry does the work -- the verdict about the faulted thread's statements is the same
+  static long const kSecondMs[] = {0, 1, 5, 30};
+  long const second_ms = c.flip(1, 4) ? kSecondMs[c.pick(4)] : -1;
 
   for (unsigned t = 0; t < T; ++t)
   {
@@ -669,6 +673,7 @@ void run_crash_case(Choices& c, Report& r)
          (per_thread_loggers ? "per_thread" : "shared") + " delivery=" + delivery +
          (signals_without_exit_wait ? " signals:wait_for_queues_to_empty_before_exit=false" : ""));
   if (signals_without_exit_wait) r.label("signal_without_exit_wait_option");
+  if (second_ms >= 0 && delivery == "raise" && T > 1) { r.label("same_signal_raised_by_a_second_thread"); r.line("  second delivery of the signal by a parked thread after " + std::to_string(second_ms) + " ms"); }
   for (unsigned t = 0; t < T; ++t)
     r.line("  thread " + std::to_string(t) + ": n=" + std::to_string(th[t].n) + " pre=" + std::to_string(th[t].pre) +
            (th[t].exits ? " exits" : " parks") + " sizes=" + sizes_csv(th[t].sizes));
@@ -713,7 +718,8 @@ void run_crash_case(Choices& c, Report& r)
     }
     if (is_signal(p.kind) && signals_without_exit_wait) s += "exitwait 0\n";
     s += std::string{"event kind="} + kKindName[p.kind] + " actor=" + std::to_string(p.actor) + " delivery=" + delivery +
-      " drain=" + (be.mode == 3 ? "1" : "0") + " prealloc=" + ((is_signal(p.kind) && p.boundary == 0) ? "1" : "0") + "\n";
+      " drain=" + (be.mode == 3 ? "1" : "0") + " prealloc=" + ((is_signal(p.kind) && p.boundary == 0) ? "1" : "0") +
+      ((is_signal(p.kind) && second_ms >= 0 && delivery == "raise") ? " second=" + std::to_string(second_ms) : std::string{}) + "\n";
     runs[i].spec_body = s;
   }
 
